@@ -105,6 +105,17 @@ def rule_accumulation(ck):
         if not arrays:
             ck.ob('C03-D2.array', f, 'count array', f.node).unknown('no numpy.zeros(...) count array found')
             continue
+        # other names of the same array object (`event_counts = bins` after a helper's result was bound): plain rebinding, the only
+        # definition of the new name
+        arrays = dict(arrays)
+        grew = True
+        while grew:
+            grew = False
+            for n in all_nodes(f):
+                if isinstance(n, ast.Assign) and len(n.targets) == 1 and isinstance(n.targets[0], ast.Name) and isinstance(n.value, ast.Name) \
+                        and n.value.id in arrays and n.targets[0].id not in arrays and len(find_assignments_local(f, n.targets[0].id)) == 1:
+                    arrays[n.targets[0].id] = arrays[n.value.id]
+                    grew = True
         updates = []
         for n in all_nodes(f):
             if isinstance(n, ast.Call) and callee(P, f, n) == 'numpy.add.at' and n.args and isinstance(n.args[0], ast.Name) \
@@ -211,9 +222,23 @@ def rule_pairing(ck):
             if vs in names and vm in names and ('shape' in txt or 'len(' in txt or 'size' in txt) and \
                     isinstance(n.test.ops[0], ast.NotEq):
                 guard = n
-    uses = [n for n in all_nodes(f) if isinstance(n, ast.Subscript) and {vs, vm} <= {x.id for x in ast.walk(n.slice) if isinstance(x, ast.Name)}]
+    # loop variables that stand for one element of an index array: `for cell, mag_bin in zip(spatial_idx, mag_idx)`
+    elem = {}
+    for lp in all_nodes(f):
+        if isinstance(lp, ast.For):
+            it, tg = lp.iter, lp.target
+            if isinstance(it, ast.Call) and u(it.func) == 'enumerate' and it.args and isinstance(tg, ast.Tuple) and len(tg.elts) == 2:
+                it, tg = it.args[0], tg.elts[1]
+            if isinstance(it, ast.Call) and u(it.func) == 'zip' and isinstance(tg, ast.Tuple) and len(tg.elts) == len(it.args):
+                for t_, a_ in zip(tg.elts, it.args):
+                    if isinstance(t_, ast.Name) and isinstance(a_, ast.Name):
+                        elem[t_.id] = a_.id
+
+    def names_of(e):
+        return {elem.get(x.id, x.id) for x in ast.walk(e) if isinstance(x, ast.Name)}
+    uses = [n for n in all_nodes(f) if isinstance(n, ast.Subscript) and {vs, vm} <= names_of(n.slice)]
     uses += [n for n in all_nodes(f) if isinstance(n, ast.Call) and callee(P, f, n) == 'numpy.add.at' and len(n.args) > 1
-             and {vs, vm} <= {x.id for x in ast.walk(n.args[1]) if isinstance(x, ast.Name)}]
+             and {vs, vm} <= names_of(n.args[1])]
     if not uses:
         o.unknown('no statement combines both indices')
         return
